@@ -46,7 +46,7 @@ def do_pair(rec, hub, U, la, lb, regimes, rng):
 def do_scalars(rec, hub, U, la, rng):
     fd = hub.fd
     sx = gen.shape_of(U, la)
-    nums = [2, 0.5, np.float64(-1.25), np.int32(3), 0, -4.0]
+    nums = [2, 0.5, np.float64(-1.25), np.int32(3), 0, -4.0, np.int64(5), np.float32(0.5), np.float16(2.0), np.uint8(3)]
     for reg in ("dyadic", "real"):
         vx = gen.values_one(reg, rng, sx)
         x = gen.Fresh(hub, fd.FlodymArray(dims=gen.dimset(fd, U, la), values=gen.relayout(vx, rng)))
@@ -59,6 +59,20 @@ def do_scalars(rec, hub, U, la, rng):
                     f()
                 except Exception:
                     pass
+            # the same judged at the driver: the wrappers only see calls that reach the library - a number type that handles the
+            # operation itself (numpy scalars standing on the left) would never get there
+            for opn, f, ref in (("k+x", lambda: k + x.new(), lambda v: k + v), ("k-x", lambda: k - x.new(), lambda v: k - v), ("k*x", lambda: k * x.new(), lambda v: k * v), ("x-k", lambda: x.new() - k, lambda v: v - k)):
+                rec.event("scalar-results", sig=f"{opn}|{type(k).__name__}|{la}", cls=f"scalar|{opn}|{type(k).__name__}")
+                try:
+                    r = f()
+                except Exception as e:
+                    rec.violation("scalar-results", f"scalar-operation-raised:{type(k).__name__}", {"op": opn, "number": repr(k), "exc": repr(e)[:200]})
+                    continue
+                if not isinstance(r, fd.FlodymArray) or tuple(r.dims.letters) != tuple(la) or tuple(np.shape(r.values)) != tuple(sx):
+                    rec.violation("scalar-results", f"scalar-operation-did-not-return-an-array-over-the-operand's-dimensions:{type(k).__name__}:{'left' if opn[0] == 'k' else 'right'}",
+                                  {"op": opn, "number": repr(k), "got_type": type(r).__name__, "got_dims": list(getattr(getattr(r, "dims", None), "letters", [])) if hasattr(r, "dims") else None})
+                elif not np.array_equal(np.asarray(r.values, dtype=float), np.asarray(ref(np.asarray(vx, dtype=float)), dtype=float), equal_nan=True):
+                    rec.violation("scalar-results", f"scalar-operation-wrong-entries:{type(k).__name__}", {"op": opn, "number": repr(k)})
             if k != 0:
                 for f in (lambda: x / k, lambda: k / xnz, lambda: xpos ** (k if abs(k) < 4 else 2)):
                     try:
